@@ -812,6 +812,41 @@ Qed.
 Theorem view_requests_priors d ps : ps <> [] -> view_requests d ps false = Some (prior_requests d ps).
 Proof. destruct ps; [congruence|reflexivity]. Qed.
 
+(* every random-suggestion route of a whole SPE request honours the priors: the estimator is sampled only when the experiment is past
+   its initialisation phase, not swamped by open suggestions and the estimator could be formed; on every other route the sampler is the
+   prior sampler iff priors are supplied and the domain is unconstrained *)
+Theorem spe_view_estimator_iff {A} (ps : list A) constrained init obs open formed :
+  spe_view_sampler ps constrained init obs open formed = SEstimator <->
+  init = false /\ sample_randomly obs open = false /\ formed = true.
+Proof.
+  unfold spe_view_sampler, random_sampler. destruct init; [split; [destruct (view_path ps constrained); discriminate|intros [H _]; discriminate]|].
+  destruct (sample_randomly obs open); simpl; [split; [destruct (view_path ps constrained); discriminate|intros (_ & H & _); discriminate]|].
+  destruct formed; simpl; split; try (destruct (view_path ps constrained); discriminate); auto.
+  intros (_ & _ & H). discriminate.
+Qed.
+Theorem spe_view_random_routes {A} (ps : list A) constrained init obs open formed :
+  init = true \/ sample_randomly obs open = true \/ formed = false ->
+  spe_view_sampler ps constrained init obs open formed = random_sampler ps constrained /\
+  (spe_view_sampler ps constrained init obs open formed = SPriors <-> ps <> [] /\ constrained = false).
+Proof.
+  intros H. assert (E : spe_view_sampler ps constrained init obs open formed = random_sampler ps constrained).
+  { unfold spe_view_sampler. destruct init; [reflexivity|]. destruct (sample_randomly obs open); [reflexivity|]. destruct formed; [|reflexivity].
+    destruct H as [H|[H|H]]; discriminate. }
+  split; [exact E|]. rewrite E. unfold random_sampler. rewrite <- (view_dispatch ps constrained).
+  destruct (view_path ps constrained); split; congruence.
+Qed.
+Theorem spe_search_view_random_routes {A} (ps : list A) constrained ph init obs open formed :
+  ph = SearchInit \/ (ph = SearchExploit /\ (init = true \/ sample_randomly obs open = true \/ formed = false)) ->
+  spe_search_view_sampler ps constrained ph init obs open formed = random_sampler ps constrained /\
+  (spe_search_view_sampler ps constrained ph init obs open formed = SPriors <-> ps <> [] /\ constrained = false).
+Proof.
+  intros [->|[-> H]]; cbn [spe_search_view_sampler].
+  - split; [reflexivity|]. unfold random_sampler. rewrite <- (view_dispatch ps constrained). destruct (view_path ps constrained); split; congruence.
+  - apply spe_view_random_routes. exact H.
+Qed.
+Theorem sample_randomly_spec obs open : sample_randomly obs open = true <-> inject_Z obs <= (17 # 10) * inject_Z open.
+Proof. unfold sample_randomly, SPE_OPEN_SUGGESTION_RATIO_BOUND. apply Qle_bool_iff. Qed.
+
 (* ------------------------------------------------------------------ the i.i.d. shortcut violates the clause *)
 Definition shortcut_d : domain :=
   [CInt 0 99; CCat [1; 2; 5; 7; 9; 11; 12; 13; 14; 15]%Z; CGrid [1 # 2; 3 # 2; 3; 7; 8]].
